@@ -184,6 +184,14 @@ class Interp:
         qual = self.qualname_for(getattr(node, "name", "<lambda>"), env)
         cenv = env.function_env() if env.is_class else env
         fn = IFunc(node, cenv, self.module_of(env), qual, defaults, kwdefaults)
+        # private-name mangling is lexical: the class whose body (textually) contains the function
+        if env.is_class:
+            fn.lexcls = env.vars.get("__qualname__local__")
+        else:
+            e = env
+            while e is not None and e.func is None:
+                e = e.parent
+            fn.lexcls = getattr(e.func, "lexcls", None) if e is not None else None
         return fn
 
     def qualname_for(self, name, env):
@@ -575,8 +583,11 @@ class Interp:
             while e is not None:
                 if e.is_class:
                     return "_" + e.vars.get("__qualname__local__", "").lstrip("_") + attr
-                if e.func is not None and e.func.defcls is not None:
-                    return "_" + e.func.defcls.name.lstrip("_") + attr
+                if e.func is not None:
+                    lex = getattr(e.func, "lexcls", None)
+                    if lex:
+                        return "_" + lex.lstrip("_") + attr
+                    return attr
                 e = e.parent
         return attr
 
@@ -1159,6 +1170,8 @@ class Interp:
             sub = obj.name + "." + name
             if sub in self.modules:
                 return self.modules[sub]
+            if obj.path is None and obj.name.split(".")[0] not in self.roots:
+                raise OutOfReach(f"unmodelled library attribute {obj.name}.{name}")
             return MISSING
         if isinstance(obj, ISuper):
             start = obj.obj.cls if isinstance(obj.obj, IObj) else obj.obj
